@@ -38,6 +38,8 @@ def typed(st, t, k):
         return [is_VCon(t), z3.Or([tag(t) == i for i in ids])]
     if h == "tuple":
         return [is_VCon(t), tag(t) == -len(k[1:])]
+    if h == "opaque":
+        return [t != VNone]
     if h == "opt":
         inner = typed(st, t, k[1])
         if not inner:
